@@ -547,10 +547,10 @@ func init() {
 // those implied by taking the edge from pred to its successor succ.
 func nilFacts(b *ssa.BasicBlock) map[ssa.Value]bool {
 	out := map[ssa.Value]bool{}
-	for _, pc := range pathConds(b) {
-		cond, neg := stripNot(pc.If.Cond)
+	for _, pf := range pathFacts(b) {
+		cond, neg := pf.Cond, false
 		if v, neq, ok := nilTest(cond); ok {
-			isNil := pc.Branch != neq
+			isNil := pf.Truth != neq
 			if neg {
 				isNil = !isNil
 			}
